@@ -9,6 +9,6 @@ Definition run (t : Tree) : Tree :=
   let st := tState (tnth t 0) in
   let w := to_hdf5 st (tLZ (tnth t 1)) (tLZ (tnth t 2)) in
   match w with
-  | ROk f => L [eResult eH5 w; eOpt eLLZ (spec_decode_csr f); eOpt eLLZ (spec_decode_csc f)]
+  | ROk f => L [eResult eH5 w; eOpt (fun m => L (map eBigs m)) (spec_decode_csr f); eOpt (fun m => L (map eBigs m)) (spec_decode_csc f)]
   | RErr e => L [eErr e; L []; L []]
   end.
